@@ -79,21 +79,21 @@ def Sorted (cmp : K → K → Int) (m : Map K V) : Prop :=
   m.Pairwise (fun a b => cmp a.1 b.1 < 0)
 
 /-- `Put`: replace the value of an equal key (the stored key object is kept) or insert in order -/
-def insert (cmp : K → K → Int) (k : K) (v : V) : Map K V → Map K V
+def upsert (cmp : K → K → Int) (k : K) (v : V) : Map K V → Map K V
   | [] => [(k, v)]
   | (a, b) :: xs =>
     if cmp k a < 0 then (k, v) :: (a, b) :: xs
-    else if cmp k a > 0 then (a, b) :: insert cmp k v xs
+    else if cmp k a > 0 then (a, b) :: upsert cmp k v xs
     else (a, v) :: xs
 
 def get (cmp : K → K → Int) (k : K) (m : Map K V) : Option V :=
   (m.find? (fun p => cmp k p.1 == 0)).map (·.2)
 
-def erase (cmp : K → K → Int) (k : K) (m : Map K V) : Map K V :=
+def remove (cmp : K → K → Int) (k : K) (m : Map K V) : Map K V :=
   m.filter (fun p => cmp k p.1 != 0)
 
-def min (m : Map K V) : Option (K × V) := m.head?
-def max (m : Map K V) : Option (K × V) := m.getLast?
+def first (m : Map K V) : Option (K × V) := m.head?
+def last (m : Map K V) : Option (K × V) := m.getLast?
 
 /-- largest key ≤ k -/
 def floor (cmp : K → K → Int) (k : K) (m : Map K V) : Option (K × V) :=
@@ -131,8 +131,8 @@ abbrev State (K V : Type) := Map K V × Map K V
 
 /-- the abstract state after a call -/
 def next (cmp : K → K → Int) (s : State K V) : Op K V → State K V
-  | .put k v => (insert cmp k v s.1, s.2)
-  | .delete k => (erase cmp k s.1, s.2)
+  | .put k v => (upsert cmp k v s.1, s.2)
+  | .delete k => (remove cmp k s.1, s.2)
   | .deleteMin => (s.1.tail, s.2)
   | .deleteMax => (s.1.dropLast, s.2)
   | .deleteAll => ([], s.2)
@@ -148,16 +148,16 @@ the six structural orders (some enumeration of the held pairs, cut where the vis
 def admits (cmp : K → K → Int) (eqVal : V → V → Bool) (s : State K V) : Op K V → Out K V → Prop
   | .put _ _, o => o = .unit
   | .delete k, o => o = .optV (get cmp k s.1)
-  | .deleteMin, o => o = .optKV (min s.1)
-  | .deleteMax, o => o = .optKV (max s.1)
+  | .deleteMin, o => o = .optKV (first s.1)
+  | .deleteMax, o => o = .optKV (last s.1)
   | .deleteAll, o => o = .unit
   | .swap, o => o = .unit
   | .size, o => o = .nat s.1.length
   | .isEmpty, o => o = .bool s.1.isEmpty
   | .height, o => ∃ h, o = .nat h
   | .get k, o => o = .optV (get cmp k s.1)
-  | .min, o => o = .optKV (min s.1)
-  | .max, o => o = .optKV (max s.1)
+  | .min, o => o = .optKV (first s.1)
+  | .max, o => o = .optKV (last s.1)
   | .floor k, o => o = .optKV (floor cmp k s.1)
   | .ceiling k, o => o = .optKV (ceiling cmp k s.1)
   | .select i, o => o = .optKV (select s.1 i)
